@@ -1,5 +1,5 @@
 ----------------------------- MODULE EmitHeader -----------------------------
-(* Emits the vectors of parts (a) and (b) with the expectation computed by Header.tla. *)
+(* Emits the vectors of parts (a), (b) and (b') with the expectation computed by Header.tla. *)
 EXTENDS Header, Json, SequencesExt
 
 ASSUME ndJsonSerialize("emit_vectors.ndjson",
@@ -13,6 +13,17 @@ ASSUME ndJsonSerialize("accept_vectors.ndjson",
 ASSUME ndJsonSerialize("emit_shared.ndjson",
          SetToSeq({[in |-> sx, exp |-> ExpSharedEmit(sx)] : sx \in SharedEmitScenarios}))
 
-EInit == x = 0 /\ wire = 0 /\ v = 0 /\ pc = "" /\ verdict = ""
-ENext == UNCHANGED <<avars, bvars>>
+(* (defined here and not in Header.tla: TLC evaluates constant definitions without      *)
+(* parameters at start-up, in every run of every module that extends Header)            *)
+(* the sequences as vectors: those with one restart, those with two *)
+SeqTwo == UNION {{<<h1, h2>> : h2 \in SeqCont(<<h1>>)} : h1 \in Heads}
+SeqThree == UNION {{<<h1, Complete(h1.role, h1.framing), h3>> : h3 \in SeqCont(<<h1, Complete(h1.role, h1.framing)>>)} : h1 \in Heads}
+(* sequences of headers across restarts: the expectation for every header and what an  *)
+(* accepting session reports after the last one                                        *)
+SV(s) == [in |-> [hs |-> s], exp |-> [j \in 1..Len(s) |-> ExpectAt(s, j)], info |-> RecoverAt(s, Len(s))]
+ASSUME ndJsonSerialize("accept_seq.ndjson",
+         SetToSeq({SV(s) : s \in SeqTwo}) \o SetToSeq({SV(s) : s \in SeqThree}))
+
+EInit == x = 0 /\ wire = 0 /\ v = 0 /\ pc = "" /\ verdict = "" /\ hs = 0 /\ k = 0 /\ spc = "" /\ sverdict = "" /\ info = 0 /\ estab = 0
+ENext == UNCHANGED <<avars, bvars, svars>>
 =============================================================================
